@@ -43,6 +43,7 @@ instance instArith : Arith (Cx α) where
   half := ⟨half, zero⟩
   isZero z := Arith.isZero z.norm
   eq0 z := Arith.eq0 z.re && Arith.eq0 z.im
+  ofNat n := ⟨Arith.ofNat n, zero⟩
 
 end Cx
 end Epsic
